@@ -345,6 +345,7 @@ func (r *shareRun) block(dt time.Duration) bool {
 			shares[[2]int{i, v}] = c.Bal(r.acc(i), r.shareDenom(v))
 		}
 	}
+	preModBond := c.Bal(r.mod, "uvrise")
 	preBal := make([][2]sdkmath.Int, len(c.Accs))
 	for i := range c.Accs {
 		preBal[i] = r.bal2(r.acc(i))
@@ -355,13 +356,23 @@ func (r *shareRun) block(dt time.Duration) bool {
 		e.In("block t=%d matured=%s", newT.UnixNano(), matured)
 		e.Obs("halt")
 		feat := "other"
+		dueSum := sdkmath.ZeroInt()
+		early := false
 		for _, u := range r.unb {
-			if !u.paid && u.completion.After(newT) && u.completion.Unix() <= newT.Unix() {
-				feat = "same_second_before_completion"
+			if u.paid {
+				continue
+			}
+			if !u.completion.After(newT) {
+				dueSum = dueSum.Add(u.amount)
+			} else if u.completion.Unix() <= newT.Unix() {
+				early = true
 			}
 		}
-		if r.slashed {
-			feat = "slash_during_unbonding"
+		if r.slashed && matured.Add(preModBond).LT(dueSum) {
+			// staking released less than the queue recorded (validator slashed): recorded finding C10-SLASH
+			feat = "after_slash"
+		} else if early {
+			feat = "same_second_before_completion"
 		}
 		e.Stat("halt." + feat)
 		e.Oracle("no_halt", false, "class=%s FinalizeBlock failed at t=%d: %.200s", feat, newT.UnixNano(), strings.ReplaceAll(err.Error(), "\n", " "))
@@ -587,7 +598,14 @@ func suiteShare(e *Env) {
 				// undelegate: often a fraction of what the shares are worth, sometimes more than held
 				amt := r.amount()
 				have := r.c.Bal(r.acc(i), r.shareDenom(v))
-				if have.IsPositive() && e.R.N(4) > 0 {
+				if !have.IsPositive() && e.R.N(3) > 0 {
+					// prefer a (delegator, validator) pair that holds shares
+					for tries := 0; tries < 6 && !have.IsPositive(); tries++ {
+						i, v = e.R.N(nAcc), e.R.N(nVal)
+						have = r.c.Bal(r.acc(i), r.shareDenom(v))
+					}
+				}
+				if have.IsPositive() && e.R.N(5) > 0 {
 					amt = have.MulRaw(int64(1 + e.R.N(100))).QuoRaw(100)
 					if e.R.N(6) == 0 {
 						amt = have.AddRaw(int64(e.R.N(3)) - 1)
@@ -608,15 +626,20 @@ func suiteShare(e *Env) {
 			case x < 14 && e.Tier == "thorough" && !r.slashed && e.R.N(4) == 0:
 				// slash a validator through the real staking keeper (as evidence handling would)
 				cons := sdk.ConsAddress(nil)
+				power := int64(0)
 				for _, val := range r.c.Vals {
 					s, _ := r.c.App.StakingKeeper.ValidatorAddressCodec().BytesToString(val.Oper)
 					if s == r.vals[v] {
-						cons = val.Cons
+						cons, power = val.Cons, val.Power
 					}
 				}
 				frac := sdkmath.LegacyNewDecWithPrec(int64(1+e.R.N(20)), 2)
+				back := int64(e.R.N(6))
+				if back >= r.c.Height {
+					back = 0
+				}
 				err, p := r.c.Call(func(ctx sdk.Context) error {
-					_, err := r.c.App.StakingKeeper.Slash(ctx, cons, r.c.Height, r.c.Vals[0].Power, frac)
+					_, err := r.c.App.StakingKeeper.Slash(ctx, cons, r.c.Height-back, power, frac)
 					return err
 				})
 				e.Note("slash v%d %s -> %s", v, frac, class(err, p))
